@@ -509,6 +509,12 @@ def validate_block_summary_in_coinstate(
 
 
 def validate_block_in_coinstate(block: Block, coinstate: CoinState) -> None:
+    # The height a block claims decides whether the checkpoint exemption below applies, so it must be tied to the
+    # parent first: otherwise a block on top of a recent parent could claim an old height and skip all validation.
+    if block.previous_block_hash in coinstate.block_by_hash:
+        if block.height != coinstate.block_by_hash[block.previous_block_hash].height + 1:
+            raise ValidateBlockHeaderError("Block's reported height incorrect.")
+
     if block.height <= MAX_KNOWN_HASH_HEIGHT:
         if block.height in KNOWN_HASHES:
             if block.hash() != computer(KNOWN_HASHES[block.height]):
